@@ -42,7 +42,8 @@ def generate(rng, tier):
             continue
         ops, nodes2 = present(rng, nodes, p_full=0.35)
         final = rng.choice(["x", "x", "f"])
-        cfg = E.cfg_str(allow=1 if raw else 0)
+        # the reader configuration is part of "reading the emitted bytes": small capacities make multi-byte headers straddle refills
+        cfg = E.cfg_str(allow=1 if raw else 0, cap=rng.choice(["def", "def", "0", "1", "9", "10", "16", "17"]))
         cases.append(Case("X %s %s %s f" % (sp.s(), ops_line(ops, final), cfg), "raw" if raw else "doc",
                           {"tags": [E.tag_str(t) for _, t in ops], "nodes": E.count_nodes(nodes2)}))
     # boundary lengths
